@@ -1,5 +1,10 @@
 import O2P.Drv.Common
 import O2P.Drv.Routes
+import O2P.Drv.Serve
+import O2P.Drv.Upstream
+import O2P.Drv.Headers
+import O2P.Drv.Authz
+import O2P.Drv.Redirect
 /-!
   Line-protocol driver: reads one operation per line on stdin, writes the model's canonical
   answer per line on stdout.  Compiled as a core-only `lean_exe`.  Each `O2P/Drv/<X>.lean`
@@ -8,7 +13,7 @@ import O2P.Drv.Routes
 open O2P O2P.Drv
 
 def allOps : List (String × Op) :=
-  routesOps
+  routesOps ++ serveOps ++ upstreamOps ++ headersOps ++ authzOps ++ redirectOps
 
 def dispatch (line : String) : String :=
   match line.splitOn "\t" with
